@@ -555,7 +555,7 @@ func main() {
 				"seeks":               m.Counters["seeks"],
 				"scaled_build_shards": m.Counters["scaled_build_shards"],
 				"real_build_shards":   m.Counters["real_build_shards"],
-				"rule": "scaled build (maxEntrySize 64, buffer 6400 substituted in a copy of qlogfile.go): all files of 0..5 (quick) / 0..7 (thorough) tail lines over 4 line lengths {38,39,61,62} x filler prefix of 0/99/100/101/200 maximal lines x 3 timestamp-gap patterns, each read backwards completely, every present tail timestamp and absent targets (before, after, between) sought on the same reader object after varying prior reads; rotated+current pairs at every split. real build: files just over 1.6MB and 3.2MB with the tail length swept byte by byte (256 / 16384 steps) for filler lines of 38, 8192 and 16382 bytes. distinct_nontrivial = distinct file specifications",
+				"rule":                "scaled build (maxEntrySize 64, buffer 6400 substituted in a copy of qlogfile.go): all files of 0..5 (quick) / 0..7 (thorough) tail lines over 4 line lengths {38,39,61,62} x filler prefix of 0/99/100/101/200 maximal lines x 3 timestamp-gap patterns, each read backwards completely, every present tail timestamp and absent targets (before, after, between) sought on the same reader object after varying prior reads; rotated+current pairs at every split. real build: files just over 1.6MB and 3.2MB with the tail length swept byte by byte (256 / 16384 steps) for filler lines of 38, 8192 and 16382 bytes. distinct_nontrivial = distinct file specifications",
 			}
 		},
 		Assumptions: []string{"a line is 'shorter than the entry limit' when line+newline < maxEntrySize", "the scaled build differs from the shipped source only in the maxEntrySize constant (bufferSize is derived from it)"},
